@@ -21,9 +21,10 @@ package types
 // Replay-protected transactions are attributed only under their own chain id and only with a
 // non-malleable (low S) signature.
 //@ func EIP155Signer.Sender
-//@   requires tx != nil && tx.data.V != nil && tx.data.R != nil && tx.data.S != nil && s.chainId != nil && s.chainIdMul != nil
+//@   requires tx != nil && tx.data.V != nil && tx.data.R != nil && tx.data.S != nil && s.chainId != nil && s.chainIdMul != nil && big(tx.data.V) >= 0
 //@   ensures[C12] @lowS err == nil ==> big(tx.data.S) <= SECP_HALFN
 //@   ensures[C12] @range err == nil ==> 1 <= big(tx.data.R) && big(tx.data.R) < SECP_N && 1 <= big(tx.data.S) && big(tx.data.S) < SECP_N
+//@   ensures[C12] @chain err == nil && old(protv(big(tx.data.V))) ==> dchain(old(big(tx.data.V))) == old(big(s.chainId))
 
 //@ func HomesteadSigner.Sender
 //@   requires tx != nil && tx.data.V != nil && tx.data.R != nil && tx.data.S != nil
@@ -33,6 +34,24 @@ package types
 //@ func FrontierSigner.Sender
 //@   requires tx != nil && tx.data.V != nil && tx.data.R != nil && tx.data.S != nil
 //@   ensures[C12] @range err == nil ==> 1 <= big(tx.data.R) && big(tx.data.R) < SECP_N && 1 <= big(tx.data.S) && big(tx.data.S) < SECP_N
+
+// The chain id a signature commits to is derived from V alone (dchain mirrors the code, including
+// its 64-bit fast path); a replay-protected transaction is attributed only under a signer whose
+// chain id equals it.
+//@ func deriveChainId
+//@   requires v != nil && big(v) >= 0
+//@   ensures[C12] @value result != nil && big(result) == dchain(old(big(v)))
+//@   assigns nothing
+//@   nopanic[C12]
+//@ func isProtectedV
+//@   requires V != nil && big(V) >= 0
+//@   ensures[C12] @value result == protv(big(V))
+//@   assigns nothing
+//@   nopanic[C12]
+
+// Trusted partial frame: hashing a transaction does not modify big.Int objects the caller holds.
+//@ func Transaction.Hash
+//@   keeps big
 
 // Signer equality decides whether a cached sender may be reused: replay-protected signers are
 // equal exactly when their (unbounded) chain ids are equal; the others only to their own kind.
